@@ -2854,6 +2854,8 @@ func (c *BytecodeCompiler) compileForIn(
 	if !collectionLiteral {
 		c.emit(location.EndPos.Line, bytecode.POP)
 	}
+	// every iteration gets a fresh loop variable
+	c.closeUpvaluesInCurrentScope(location.EndPos.Line)
 	if c.additionalAbortChecks {
 		c.emit(location.EndPos.Line, bytecode.CHECK_ABORT)
 	}
